@@ -891,3 +891,6 @@ def replay(data):
     if bad:
         print("law broken:", bad)
     return bad is None and not any(o["outcome"] in ("crash", "hang") for _, o in res)
+
+# session-7 addition to the claimed level (MANIFEST text only)
+LEVEL_TEXT = LEVEL_TEXT + " " + 'Props/R_reloc.v: on whole programs of the reference assembler (class reloc_ok) the two images are byte-identical except in the statically known absolute-label words (stmt_mask), each of which is (w + d) mod 2^16 (R_relocation_bytes, R_relocation_patch, R_patch_bytes_meaning).'
